@@ -1,12 +1,11 @@
 import BctVerif.Lemmas.SynthRand
 
 /-!
-# C20 helper lemmas: `makeringlatticeCIJ` on the domain where the code is right
+# C20 helper lemmas: `makeringlatticeCIJ`
 
 `cdist n i j` is the wrap-around distance of columns i and j on a ring of n nodes.  While
-`2·c < n` the band added at step `c` is exactly the indicator of `cdist = c`; the defect D19 is that
-for even n the next band (`c = n/2`) is added twice, so the domain hypothesis of `ring_spec`
-(`k ≤ nearCnt n ((n-1)/2)`) stops one band short of it.
+`2·c ≤ n` the (clipped) band added at step `c` is exactly the indicator of `cdist = c`; for an even
+ring the last band `c = n/2` is where the two offsets `c` and `n - c` coincide and the clip matters.
 -/
 namespace Bct.Synth
 open List
@@ -23,7 +22,7 @@ def onBand (n c : Nat) (p : Cell n) : Bool := decide (cdist n p.1 p.2 = c)
 /-- number of cells on the bands `1 … c` -/
 def nearCnt (n c : Nat) : Nat := (allCells n).countP (near n c)
 
-theorem band_val (c : Nat) (h1 : 1 ≤ c) (h2 : 2 * c < n) (p : Cell n) :
+theorem band_val (c : Nat) (h1 : 1 ≤ c) (h2 : 2 * c ≤ n) (p : Cell n) :
     cellVal (band n c) p = if onBand n c p then 1 else 0 := by
   obtain ⟨i, j⟩ := p
   have hi := i.isLt; have hj := j.isLt
@@ -84,7 +83,7 @@ theorem nearCnt_zero : nearCnt n 0 = 0 := by
 /-! ### the fill loop -/
 
 structure FillInv (n k : Nat) (st : RingSt n) : Prop where
-  dom : st.count ≤ (n - 1) / 2
+  dom : st.count ≤ n / 2
   cij : ∀ p, cellVal st.CIJ p = if near n st.count p then 1 else 0
   dcij : 1 ≤ st.count → ∀ p, cellVal st.dCIJ p = if onBand n st.count p then 1 else 0
   kk : st.kk = nearCnt n st.count
@@ -93,16 +92,16 @@ structure FillInv (n k : Nat) (st : RingSt n) : Prop where
 theorem cellVal_matAdd (A B : AMat Int n) (p : Cell n) : cellVal (matAdd A B) p = cellVal A p + cellVal B p := by
   simp [cellVal, matAdd]
 
-theorem ringFill_spec (k : Nat) (hk : (k : Int) ≤ nearCnt n ((n - 1) / 2)) :
+theorem ringFill_spec (k : Nat) (hk : (k : Int) ≤ nearCnt n (n / 2)) :
     ∀ (fuel : Nat) (st : RingSt n), FillInv n k st → n ≤ fuel + st.count →
       ∃ st', ringFill k fuel st = .ok st' ∧ FillInv n k st' ∧ (k : Int) ≤ st'.kk
   | 0, st, inv, hf => by
     unfold ringFill
     by_cases hlt : st.kk < k
     · exfalso
-      have h1 : nearCnt n st.count < nearCnt n ((n - 1) / 2) := by
+      have h1 : nearCnt n st.count < nearCnt n (n / 2) := by
         have := inv.kk; omega
-      have h2 : st.count < (n - 1) / 2 := by
+      have h2 : st.count < n / 2 := by
         by_contra hc
         have := nearCnt_mono (n := n) (Nat.le_of_not_lt hc); omega
       omega
@@ -111,15 +110,15 @@ theorem ringFill_spec (k : Nat) (hk : (k : Int) ≤ nearCnt n ((n - 1) / 2)) :
     unfold ringFill
     by_cases hlt : st.kk < k
     · simp only [hlt, if_true]
-      have h1 : nearCnt n st.count < nearCnt n ((n - 1) / 2) := by
+      have h1 : nearCnt n st.count < nearCnt n (n / 2) := by
         have := inv.kk; omega
-      have h2 : st.count < (n - 1) / 2 := by
+      have h2 : st.count < n / 2 := by
         by_contra hc
         have := nearCnt_mono (n := n) (Nat.le_of_not_lt hc); omega
       have hidx : ¬ (st.count + 1 - 1 ≥ n - 1) := by omega
       rw [if_neg hidx]
       have hb1 : 1 ≤ st.count + 1 := by omega
-      have hb2 : 2 * (st.count + 1) < n := by omega
+      have hb2 : 2 * (st.count + 1) ≤ n := by omega
       have hcij : ∀ p, cellVal (matAdd st.CIJ (band n (st.count + 1))) p = if near n (st.count + 1) p then 1 else 0 := by
         intro p
         rw [cellVal_matAdd, inv.cij p, band_val _ hb1 hb2 p, near_succ_val]
@@ -173,7 +172,7 @@ variable {n : ℕ}
 
 /-- the contract of `makeringlatticeCIJ`: `c` bands were used, `removed` is the excess taken out -/
 structure RingSpec (n k : Nat) (C : AMat Int n) (c : Nat) (removed : List (Cell n)) : Prop where
-  dom : c = 0 ∨ 2 * c < n
+  dom : c = 0 ∨ 2 * c ≤ n
   vals : ∀ p, cellVal C p = if near n c p && !decide (p ∈ removed) then 1 else 0
   removed_band : ∀ p ∈ removed, onBand n c p = true
   removed_nodup : removed.Nodup
@@ -192,14 +191,14 @@ theorem countP_split (p q : Cell n → Bool) (l : List (Cell n)) :
 theorem onBand_near {c : Nat} (hc : 1 ≤ c) (p : Cell n) (h : onBand n c p = true) : near n c p = true := by
   simp only [onBand, near, decide_eq_true_eq] at h ⊢; omega
 
-theorem ringLattice_spec (k : Nat) (hk : (k : Int) ≤ nearCnt n ((n - 1) / 2)) (ds : List Nat)
+theorem ringLattice_spec (k : Nat) (hk : (k : Int) ≤ nearCnt n (n / 2)) (ds : List Nat)
     {C : AMat Int n} {rest : List Nat} (h : ringLattice n k ds = .ok (C, rest)) :
     ∃ c removed, RingSpec n k C c removed := by
   unfold ringLattice at h
   obtain ⟨st, hfill, inv, hkk⟩ := ringFill_spec k hk n _ (fillInv_init k) (by simp)
   rw [hfill] at h
   simp only at h
-  have hdom : st.count = 0 ∨ 2 * st.count < n := by
+  have hdom : st.count = 0 ∨ 2 * st.count ≤ n := by
     have := inv.dom
     rcases Nat.eq_zero_or_pos st.count with h0 | h0
     · exact Or.inl h0
@@ -286,7 +285,7 @@ theorem ringLattice_spec (k : Nat) (hk : (k : Int) ≤ nearCnt n ((n - 1) / 2)) 
           omega
 
 /-- on the stated domain the routine never raises IndexError, whatever the draws -/
-theorem ringLattice_no_index_error (k : Nat) (hk : (k : Int) ≤ nearCnt n ((n - 1) / 2)) (ds : List Nat) :
+theorem ringLattice_no_index_error (k : Nat) (hk : (k : Int) ≤ nearCnt n (n / 2)) (ds : List Nat) :
     ringLattice n k ds ≠ .error .index := by
   unfold ringLattice
   obtain ⟨st, hfill, inv, hkk⟩ := ringFill_spec k hk n _ (fillInv_init k) (by simp)
@@ -331,83 +330,18 @@ namespace Bct.Synth
 open List
 variable {n : ℕ}
 
-/-! ### the capacity of the correct domain in closed form -/
+/-! ### the bands `1 … n/2` are all off-diagonal cells -/
 
-/-- odd n: every off-diagonal cell is on one of the bands `1 … (n-1)/2` -/
-theorem nearCnt_half_odd (hodd : n % 2 = 1) : nearCnt n ((n - 1) / 2) = n * (n - 1) := by
+theorem nearCnt_full : nearCnt n (n / 2) = n * (n - 1) := by
   unfold nearCnt
-  have : (allCells n).countP (near n ((n - 1) / 2)) = (allCells n).countP (fun c => decide (c.1 ≠ c.2)) := by
+  have : (allCells n).countP (near n (n / 2)) = (allCells n).countP (fun c => decide (c.1 ≠ c.2)) := by
     apply List.countP_congr
     intro p _
     have h1 := p.1.isLt; have h2 := p.2.isLt
     have hne : p.1 ≠ p.2 ↔ p.1.val ≠ p.2.val := by rw [Ne, Fin.ext_iff]
-    have key : (1 ≤ cdist n p.1 p.2 ∧ cdist n p.1 p.2 ≤ (n - 1) / 2) ↔ p.1.val ≠ p.2.val := by
+    have key : (1 ≤ cdist n p.1 p.2 ∧ cdist n p.1 p.2 ≤ n / 2) ↔ p.1.val ≠ p.2.val := by
       unfold cdist; omega
     rw [near, decide_eq_true_eq, decide_eq_true_eq, hne]; exact key
   rw [this, countP_offdiag, Nat.mul_sub, Nat.mul_one]
-
-/-- the antipodal node on an even ring -/
-def antip (hn : 2 ≤ n) (i : Fin n) : Fin n :=
-  if h : i.val < n / 2 then ⟨i.val + n / 2, by omega⟩ else ⟨i.val - n / 2, by omega⟩
-
-theorem antip_val (hn : 2 ≤ n) (i : Fin n) :
-    (antip hn i).val = if i.val < n / 2 then i.val + n / 2 else i.val - n / 2 := by
-  unfold antip; split <;> simp [*]
-
-theorem countP_anti (hn : 2 ≤ n) (heven : n % 2 = 0) :
-    (allCells n).countP (fun p => decide (p.1.val + n / 2 = p.2.val ∨ p.2.val + n / 2 = p.1.val)) = n := by
-  rw [List.countP_eq_length_filter]
-  have hperm : ((allCells n).filter fun p => decide (p.1.val + n / 2 = p.2.val ∨ p.2.val + n / 2 = p.1.val)).Perm
-      ((List.finRange n).map fun i => (i, antip hn i)) := by
-    refine (List.perm_ext_iff_of_nodup (allCells_nodup.filter _) ?_).2 ?_
-    · exact (List.nodup_finRange n).map (fun a b h => (Prod.ext_iff.1 h).1)
-    · rintro ⟨i, j⟩
-      have h1 := i.isLt; have h2 := j.isLt
-      simp only [List.mem_filter, mem_allCells, decide_eq_true_eq, true_and, List.mem_map, List.mem_finRange,
-        Prod.mk.injEq]
-      constructor
-      · intro h
-        refine ⟨i, rfl, ?_⟩
-        apply Fin.ext
-        rw [antip_val]
-        split_ifs <;> omega
-      · rintro ⟨x, rfl, rfl⟩
-        rw [antip_val]
-        have := x.isLt
-        split_ifs <;> omega
-  rw [hperm.length_eq]; simp
-
-/-- even n: the antipodal band `n/2` is excluded (this is where D19 strikes) -/
-theorem nearCnt_half_even (heven : n % 2 = 0) : nearCnt n ((n - 1) / 2) = n * (n - 2) := by
-  rcases Nat.lt_or_ge n 2 with hn | hn
-  · have : n = 0 := by omega
-    subst this; simp [nearCnt, allCells]
-  · unfold nearCnt
-    have hsplit := countP_split (fun c : Cell n => decide (c.1 ≠ c.2))
-      (fun p => decide (p.1.val + n / 2 = p.2.val ∨ p.2.val + n / 2 = p.1.val)) (allCells n)
-    have e1 : (allCells n).countP (fun c => decide (c.1 ≠ c.2) &&
-        decide (c.1.val + n / 2 = c.2.val ∨ c.2.val + n / 2 = c.1.val)) = n := by
-      refine Eq.trans ?_ (countP_anti hn heven)
-      apply List.countP_congr
-      intro p _
-      have hne : p.1 ≠ p.2 ↔ p.1.val ≠ p.2.val := by rw [Ne, Fin.ext_iff]
-      rw [Bool.and_eq_true, decide_eq_true_eq, decide_eq_true_eq, hne]
-      omega
-    have e2 : (allCells n).countP (fun c => decide (c.1 ≠ c.2) &&
-        !decide (c.1.val + n / 2 = c.2.val ∨ c.2.val + n / 2 = c.1.val)) = (allCells n).countP (near n ((n - 1) / 2)) := by
-      apply List.countP_congr
-      intro p _
-      have h1 := p.1.isLt; have h2 := p.2.isLt
-      have hne : p.1 ≠ p.2 ↔ p.1.val ≠ p.2.val := by rw [Ne, Fin.ext_iff]
-      have key : (p.1.val ≠ p.2.val ∧ ¬(p.1.val + n / 2 = p.2.val ∨ p.2.val + n / 2 = p.1.val)) ↔
-          (1 ≤ cdist n p.1 p.2 ∧ cdist n p.1 p.2 ≤ (n - 1) / 2) := by
-        unfold cdist; omega
-      rw [near, Bool.and_eq_true, Bool.not_eq_true', decide_eq_true_eq, decide_eq_false_iff_not, decide_eq_true_eq, hne]
-      exact key
-    rw [countP_offdiag, e1, e2] at hsplit
-    have : n * n - n = n * (n - 2) + n := by
-      obtain ⟨m, rfl⟩ : ∃ m, n = m + 2 := ⟨n - 2, by omega⟩
-      simp only [Nat.add_sub_cancel]; ring_nf; omega
-    omega
 
 end Bct.Synth
